@@ -3,6 +3,8 @@ package main
 // Addresses (C14): DetermineAddress / Create / Open / Parse on names from a grammar.
 
 import (
+	ipfsac "berty.tech/go-orbit-db/accesscontroller/ipfs"
+	"time"
 	"context"
 	"fmt"
 	"path"
@@ -138,6 +140,7 @@ func (w *World) execAddrOp(ctx context.Context, toks []string) (bool, error) {
 		}
 		w.describeStore("created", p, s)
 		w.lastAddr = s.Address().String()
+		w.lastStore = s
 		w.extraStores = append(w.extraStores, s)
 	case "openaddr":
 		// openaddr p <strhex with @rN@> [localonly]
@@ -172,7 +175,43 @@ func (w *World) execAddrOp(ctx context.Context, toks []string) (bool, error) {
 			t := true
 			opts.LocalOnly = &t
 		}
-		s, err := w.peers[p].odb.Open(ctx, w.lastAddr, opts)
+		// blind=actype|aclist : the access controller of the database cannot be resolved by this instance
+		// at this moment (its type is not registered here / its write-list block cannot be fetched): the
+		// open must be refused, never answered with a store under some other write list
+		undo := func() {}
+		octx := ctx
+		switch toks[len(toks)-1] {
+		case "blind=actype":
+			if w.lastStore != nil {
+				ty := w.lastStore.AccessController().Type()
+				odb := w.peers[p].odb
+				odb.UnregisterAccessControllerType(ty)
+				undo = func() { _ = odb.RegisterAccessControllerType(ipfsac.NewIPFSAccessController) }
+			}
+		case "blind=aclist":
+			if w.lastStore != nil {
+				if params, err := w.lastStore.AccessController().Save(ctx); err == nil && params.GetAddress().Defined() {
+					n, holders := w.blocks.Take(params.GetAddress())
+					w.blocks.mu.Lock()
+					old := w.blocks.FailUnreachable
+					w.blocks.FailUnreachable = true
+					w.blocks.mu.Unlock()
+					var cancel context.CancelFunc
+					octx, cancel = context.WithTimeout(ctx, 2*time.Second)
+					undo = func() {
+						cancel()
+						w.blocks.mu.Lock()
+						w.blocks.FailUnreachable = old
+						w.blocks.mu.Unlock()
+						if n != nil {
+							w.blocks.Restore(n, holders)
+						}
+					}
+				}
+			}
+		}
+		s, err := w.peers[p].odb.Open(octx, w.lastAddr, opts)
+		undo()
 		if err != nil {
 			w.printf("opened %d err\n", p)
 			return true, nil
